@@ -82,8 +82,10 @@ func (t *AppendOnlyTree) AddLeaf(tx dbtypes.Txer, blockNum, blockPosition uint64
 	}
 	t.lastIndex++
 	tx.AddRollbackCallback(func() {
-		log.Debugf("decreasing index due to rollback")
-		t.lastIndex--
+		// lastLeftCache may hold hashes of the rolled back leaves, so decreasing the index is not enough:
+		// invalidate the cache so that the next AddLeaf rebuilds it from the DB
+		log.Debugf("invalidating cache due to rollback")
+		t.lastIndex = -2
 	})
 	return nil
 }
